@@ -15,7 +15,7 @@ func (P) NewExec() core.Exec                          { return pxy.New() }
 func (P) Nontrivial(ops []string, impl []string) bool { return pxy.Nontrivial(ops, impl) }
 
 func (P) Rule() string {
-	return "case = one client connection (plain, blind CONNECT, MITM with TLS or plain HTTP inside) with 1..7 requests whose request/response modifiers are scripted per exchange (pass, error, skip round trip, error+skip, hijack); recording modifiers, origin log, hook VerifLiveContexts at quiescence; distinct by op-list hash; non-trivial when >= 2 requests were served, a 502 or a hijack occurred, or later requests went unserved"
+	return "case = one client connection (plain, blind CONNECT, MITM with TLS or plain HTTP inside) with 1..7 requests whose request/response modifiers are scripted per exchange (pass, error, skip round trip, error+skip, hijack; an error is one of 14 kinds of values: errors.New, wrapped, MultiError, io.EOF, io.ErrClosedPipe, io.ErrUnexpectedEOF, timeouts as net.Error / *net.OpError / os.ErrDeadlineExceeded / context.DeadlineExceeded / *net.DNSError, context.Canceled, refused) on plain, CONNECT and tunnelled requests, clients and origins speaking HTTP/1.0 or 1.1 with varied Connection tokens; recording modifiers, origin log, hook VerifLiveContexts at quiescence; distinct by op-list hash; non-trivial when >= 2 requests were served, a 502 or a hijack occurred, or later requests went unserved"
 }
 
 func (P) Gen(r *core.Rand, tier string, emit func([]string)) {
